@@ -388,6 +388,7 @@ def eigen_contract(ctx, nrng):
     ob = 'contract-sample:eig_banded/eigh_tridiagonal(orthonormal columns, U\'PU diagonal, first d eigenvalues ~0)'
     ctx.obligations.append(ob)
     bad = None
+    zeroed = None
     raw = []
     orig = (wu.eig_banded, wu.eigh_tridiagonal)
 
@@ -402,9 +403,10 @@ def eigen_contract(ctx, nrng):
         return r
     wu.eig_banded, wu.eigh_tridiagonal = eb, et
     try:
-        for d in (1, 2, 3):
-            for n in list(range(d + 1, 14)) + [20, 33]:
-                for k in sorted({d + 1, min(n, d + 3), n} if n > d else set()):
+        for d in (1, 2, 3, 4):
+            longs = {2: [450], 3: [130, 200], 4: [80]}.get(d, [])
+            for n in list(range(d + 1, 14)) + [20, 33] + longs:
+                for k in sorted(({d + 1, min(n, d + 3), n} if n not in longs else {d + 1, d + 5}) if n > d else set()):
                     if k > n:
                         continue
                     obj = object.__new__(wu.WhittakerSystem2D)
@@ -420,17 +422,25 @@ def eigen_contract(ctx, nrng):
                     e1 = np.abs(U.T @ U - np.eye(k)).max()
                     e2 = np.abs(U.T @ P @ U - np.diag(vals)).max() / scale
                     e3 = np.abs(raw[0][:d]).max() / scale if raw else np.inf
-                    ref = np.linalg.eigvalsh(P)[:k]
+                    ref = ref_basis(n, d)[2][:k]       # SVD of D: relative accuracy also for tiny eigenvalues
                     e4 = np.abs(ref - np.where(np.arange(k) < d, 0, raw[0] if raw else np.nan)).max() / scale
+                    # genuine (non-null) eigenvalues must survive, however small they are on a long axis
+                    if k > d and not np.all(np.asarray(vals)[d:] >= 0.5 * ref[d:]):
+                        j = d + int(np.argmin(np.asarray(vals)[d:] / ref[d:]))
+                        zeroed = zeroed or (f'n={n} diff_order={d} num_eigens={k}: eigenvalue #{j} of D\'D is {ref[j]:.3e} (genuine, rank n-d) '
+                                            f'but _calc_eigenvalues returns {vals[j]:.3e}')
                     ctx.case(('eig', n, d, k), nontrivial=k > d, kind=f'eigen-contract:d={d}')
                     if U.shape != (n, k) or not (e1 < 1e-9 and e2 < 1e-9 and e3 < 1e-9 and e4 < 1e-9) or np.any(vals[:d] != 0):
                         bad = bad or f'n={n} d={d} k={k}: |U\'U-I|={e1:.2e} |U\'PU-L|/|P|={e2:.2e} first-d={e3:.2e} vs eigvalsh={e4:.2e}'
     finally:
         wu.eig_banded, wu.eigh_tridiagonal = orig
+    if zeroed:
+        ctx.fail('eigen-contract:genuine-eigenvalue-zeroed', f'_calc_eigenvalues treats a genuine eigenvalue as null: {zeroed}',
+                 {'kind': 'eigen', 'detail': zeroed})
     if bad:
         ctx.fail('eigen-contract', f'_calc_eigenvalues does not return the smallest eigen-pairs of D\'D with zeroed null eigenvalues: {bad}',
                  {'kind': 'eigen', 'detail': bad})
-    else:
+    elif not zeroed:
         ctx.discharged.append(ob)
 
 
@@ -438,6 +448,39 @@ def eigen_contract(ctx, nrng):
 def dpen(n, d):
     D = np.diff(np.eye(n), d, axis=0)
     return D.T @ D
+
+
+_BASIS_CACHE = {}
+
+
+def ref_basis(n, d):
+    """(all eigenvectors of D'D in ascending order, D'D), from the SVD of D = np.diff(np.eye(n), d):
+    right singular vectors, null space first.  Relative accuracy for the tiny eigenvalues of long
+    axes, where eigh(D'D) only has absolute accuracy eps*|D'D|."""
+    if (n, d) not in _BASIS_CACHE:
+        D = np.diff(np.eye(n), d, axis=0)
+        _, sv, Vt = np.linalg.svd(D, full_matrices=True)
+        vals = np.concatenate([np.zeros(d), sv[::-1] ** 2])
+        if len(_BASIS_CACHE) > 40:
+            _BASIS_CACHE.clear()
+        _BASIS_CACHE[(n, d)] = (Vt[::-1].T.copy(), D.T @ D, vals)
+    return _BASIS_CACHE[(n, d)]
+
+
+def galerkin_reference(y, w, lam, d, k):
+    """Dense Galerkin solution in the independent SVD eigenbasis without forming (M*N)^2 arrays."""
+    M, N = y.shape
+    Vr, Pr, _ = ref_basis(M, d[0])
+    Vc, Pc, _ = ref_basis(N, d[1])
+    Ur, Uc = Vr[:, :k[0]], Vc[:, :k[1]]
+    U = np.kron(Ur, Uc)
+    A = (U * w.ravel()[:, None]).T @ U + lam[0] * np.kron(Ur.T @ Pr @ Ur, Uc.T @ Uc) \
+        + lam[1] * np.kron(Ur.T @ Ur, Uc.T @ Pc @ Uc)
+    cond = np.linalg.cond(A)
+    if not np.isfinite(cond) or cond > 1e11:
+        return None, np.inf
+    c = np.linalg.solve(A, U.T @ (w.ravel() * y.ravel()))
+    return (U @ c).reshape(M, N), cond
 
 
 def dense_reference(y, w, lam, d, k=None):
@@ -454,8 +497,8 @@ def dense_reference(y, w, lam, d, k=None):
             return None, np.inf, None
         v = np.linalg.solve(A, w.ravel() * y.ravel())
         return v.reshape(M, N), cond, None
-    Ur = np.linalg.eigh(Pr)[1][:, :k[0]]
-    Uc = np.linalg.eigh(Pc)[1][:, :k[1]]
+    Ur = ref_basis(M, d[0])[0][:, :k[0]]
+    Uc = ref_basis(N, d[1])[0][:, :k[1]]
     U = np.kron(Ur, Uc)
     A = U.T @ (Wd + P) @ U
     cond = np.linalg.cond(A)
@@ -604,6 +647,81 @@ def oracle_whittaker(ctx, nrng, budget):
                 if not e_d <= dtol:
                     ctx.fail(f'whittaker:dof:{method}', f'{method}: params[\'dof\'] differs from diag((U\'WU+L)^-1 U\'WU) (entries outside the null '
                                                         f'blocks and the total) by {e_d:.3e} (num_eigens=({kr},{kc}))', case_t)
+    return worst
+
+
+LONG_GRIDS = [(130, 6, 3), (80, 7, 4), (450, 6, 2), (200, 5, 3)]   # (long side, short side, diff_order of the long axis)
+
+
+def oracle_long(ctx, nrng, budget):
+    """One long axis: the smallest genuine eigenvalues of D'D are ~ (c/N)^(2d) (below sqrt(eps) from
+    N = 429 / 127 / 75 for d = 2 / 3 / 4) and must NOT be treated as null.  Tolerances: the LAPACK
+    eigenvalues carry an absolute error ~ eps*4^d, which lam multiplies (observed on the unchanged tree
+    <= 2.4e-6 relative at lam = 8.5e8, <= 2e-7 for lam <= 1e8; a threshold on the eigenvalue magnitude
+    gives >= 4e-4)."""
+    from pybaselines import Baseline2D
+    eps = np.finfo(float).eps
+    worst = 0.0
+    reps = ctx.n(1, 3) * budget
+    idx = 0
+    for rep in range(reps):
+        for (L, S, dl) in LONG_GRIDS:
+            for long_first in ((True, False) if (L <= 200 or ctx.tier == 'thorough') else (rep % 2 == 0,)):
+                idx += 1
+                ds = int(nrng.integers(1, 3))
+                M, N = (L, S) if long_first else (S, L)
+                d = (dl, ds) if long_first else (ds, dl)
+                ll, ls = float(10.0 ** nrng.uniform(6, 8)), float(10.0 ** nrng.uniform(0, 2))
+                lam = (ll, ls) if long_first else (ls, ll)
+                wk = ['random02', 'const0.25', 'const1'][idx % 3]
+                w = nrng.uniform(0.2, 1.0, (M, N)) if wk == 'random02' else weight_kinds(nrng, M, N, wk)
+                y = gen_surface(nrng, M, N)
+                scale = np.abs(y).max()
+                method = WHIT_EIGEN[idx % len(WHIT_EIGEN)]
+                kl, ks = dl + 1 + int(nrng.integers(0, 6)), min(S, ds + 1 + int(nrng.integers(0, 3)))
+                k = (kl, ks) if long_first else (ks, kl)
+                b = Baseline2D(np.arange(M, dtype=float), np.arange(N, dtype=float))
+                case = {'kind': 'whittaker', 'method': method, 'M': M, 'N': N, 'diff_order': list(d), 'lam': list(lam),
+                        'weights': w.tolist(), 'y': y.tolist(), 'num_eigens': list(k), 'long': True}
+                ctx.case(('long-trunc', method, M, N, d, lam, k, wk, y.tobytes()), nontrivial=True,
+                         kind=f'oracle:long-axis:truncated-vs-galerkin:{L}x{S}:d={dl}')
+                try:
+                    got, _ = call_method(b, method, y, lam, d, w, k)
+                except Exception as exc:  # noqa
+                    ctx.fail(f'whittaker:{method}:raises', f'{method} (max_iter=0, num_eigens={k}) raised {type(exc).__name__}: {exc} on a {M}x{N} grid', case)
+                    continue
+                ref, cond = galerkin_reference(y, w, lam, d, k)
+                if ref is not None:
+                    tol = (3e-6 + 20 * ll * eps * 4 ** dl + 1e4 * eps * cond) * scale
+                    e = np.abs(got - ref).max()
+                    worst = max(worst, e / tol)
+                    if not e <= tol:
+                        ctx.fail(f'whittaker:long-axis:truncated-vs-galerkin:{method}',
+                                 f'{method}: num_eigens={k} on a {M}x{N} grid (diff_order={d}, lam=({lam[0]:.3g},{lam[1]:.3g})) differs from the dense '
+                                 f'Galerkin solution in the independent (SVD) eigenbasis by {e:.3e} (tolerance {tol:.1e}): the smallest genuine '
+                                 f'eigenvalues of the long axis are not the ones the penalty uses', case)
+                # all eigenvectors versus the direct solve (feasible up to ~800 points)
+                if M * N <= 1000:
+                    lamf = (1e6, ls) if long_first else (ls, 1e6)
+                    casef = dict(case, lam=list(lamf))
+                    casef.pop('num_eigens')
+                    ctx.case(('long-full', method, M, N, d, lamf, wk, y.tobytes()), nontrivial=True,
+                             kind=f'oracle:long-axis:full-vs-direct:{L}x{S}:d={dl}')
+                    try:
+                        direct, _ = call_method(b, method, y, lamf, d, w, None)
+                        full, _ = call_method(b, method, y, lamf, d, w, (M, N))
+                    except Exception as exc:  # noqa
+                        ctx.fail(f'whittaker:{method}:raises', f'{method} (max_iter=0) raised {type(exc).__name__}: {exc} on a {M}x{N} grid', casef)
+                        continue
+                    # |W + P| / min(w) bounds the condition number without a dense (M*N)^2 decomposition
+                    cbound = (1.0 + 1e6 * 4 ** dl + ls * 4 ** ds) / w.min()
+                    tolf = (3e-6 + 20 * 1e6 * eps * 4 ** dl + 30 * eps * cbound) * scale
+                    ef = np.abs(full - direct).max()
+                    worst = max(worst, ef / tolf)
+                    if not ef <= tolf:
+                        ctx.fail(f'whittaker:long-axis:full-eigen-vs-direct:{method}',
+                                 f'{method}: num_eigens=({M},{N}) differs from num_eigens=None by {ef:.3e} (tolerance {tolf:.1e}) on a {M}x{N} grid, '
+                                 f'diff_order={d}, lam=({lamf[0]:.3g},{lamf[1]:.3g})', casef)
     return worst
 
 
@@ -769,9 +887,10 @@ def run(ctx):
     budget = 1 if (ok and not ctx.broken) else 3
     w1 = stage('oracle_whittaker', oracle_whittaker, budget)
     stage('oracle_pspline', oracle_pspline, budget)
+    w3 = stage('oracle_long', oracle_long, budget)
     w2 = stage('oracle_axes', oracle_axes, budget)
-    ctx.note(f'direct oracle budget x{budget}: largest error/tolerance ratio on Whittaker cases {w1:.2e}, largest relative individual_axes '
-             f'difference {w2:.2e}; not covered: grids larger than 15x15 in the float oracle, iteration beyond the first solve '
+    ctx.note(f'direct oracle budget x{budget}: largest error/tolerance ratio on Whittaker cases {w1:.2e} (long-axis grids {w3:.2e}), largest relative individual_axes '
+             f'difference {w2:.2e}; not covered: grids other than <=15x15 and the one-long-axis grids 130x6/80x7/450x6/200x5 (and transposes) in the float oracle, iteration beyond the first solve '
              f'(max_iter=0 on purpose), update_penalty with inexact lam ratios, pspline methods other than pspline_asls, '
              f'rhs_extra / user-supplied penalty arguments of solve')
 
@@ -793,6 +912,26 @@ def replay(rep):
         b = Baseline2D(np.arange(M, dtype=float), np.arange(N, dtype=float))
         eps = np.finfo(float).eps
         direct, _ = call_method(b, method, y, lam, d, w, None)
+        if case.get('long') and 'num_eigens' in case:
+            ke = tuple(case['num_eigens'])
+            got, _ = call_method(b, method, y, lam, d, w, ke)
+            ref, cond = galerkin_reference(y, w, lam, d, ke)
+            if ref is None:
+                print('replay whittaker: reduced system numerically singular, nothing to compare')
+                return 0
+            dl, ll = (d[0], lam[0]) if M > N else (d[1], lam[1])
+            tol = (3e-6 + 20 * ll * eps * 4 ** dl + 1e4 * eps * cond) * np.abs(y).max()
+            err = np.abs(got - ref).max()
+            print(f'replay whittaker {method} (long axis): difference from the dense Galerkin solution {err:.3e} (tolerance {tol:.1e})')
+            return 1 if not err <= tol else 0
+        if case.get('long'):
+            got, _ = call_method(b, method, y, lam, d, w, (M, N))
+            dl, ds = (d[0], d[1]) if M > N else (d[1], d[0])
+            cbound = (1.0 + max(lam) * 4 ** dl + min(lam) * 4 ** ds) / w.min()
+            tol = (3e-6 + 20 * max(lam) * eps * 4 ** dl + 30 * eps * cbound) * np.abs(y).max()
+            err = np.abs(got - direct).max()
+            print(f'replay whittaker {method} (long axis): all eigenvectors vs direct solve {err:.3e} (tolerance {tol:.1e})')
+            return 1 if not err <= tol else 0
         if 'num_eigens' in case:
             ke = tuple(case['num_eigens'])
             got, _ = call_method(b, method, y, lam, d, w, ke)
